@@ -321,7 +321,8 @@ Bytes build_answer(uint16_t id, const std::string &qname, uint16_t qtype, const 
 	put16(b, 1); put16(b, 0); put16(b, 0); put16(b, 0);
 	put_name(b, qname); put16(b, qtype); put16(b, 1);
 	int an = 0;
-	static int rot = 0; rot++;
+	// no hidden state: generators run in long-lived worker parents, and a plan must be a function of its seed only
+	int rot = (int)((fnv1a(payload.data(), payload.size()) ^ id ^ qname.size()) & 0x7fff);
 	size_t used = payload.size();
 	auto rrhead = [&](uint16_t t) { put16(b, 0xc00c); put16(b, t); put16(b, 1); put32(b, 0); };
 	if (qtype == QT_NULL || qtype == QT_PRIVATE) {
